@@ -108,7 +108,20 @@ def prob_case(ck, probs_map, draws, coq_exprs, expect):
 
 
 # ---- (c) threat-actor kill chains ----------------------------------------------------------------------------------
-def tap_walk(ck, name, cfg, steps, coq_exprs, expect):
+def undo_request(h):
+    """the request with which a defender removes what the attacker's last action just put in place"""
+    a, prm = h.action, h.parameters
+    node = prm.get("node_name")
+    if a == "node-application-install":
+        return ["network", "node", node, "software_manager", "application", "uninstall", prm["application_name"]]
+    if a == "node-file-create":
+        return ["network", "node", node, "file_system", "delete", "file", prm["folder_name"], prm["file_name"]]
+    if a == "node-folder-create":
+        return ["network", "node", node, "file_system", "delete", "folder", prm["folder_name"]]
+    return None
+
+
+def tap_walk(ck, name, cfg, steps, coq_exprs, expect, hostile=0.0):
     rng = ck.rng
     env = world.make_env(cfg)
     env.reset()
@@ -128,18 +141,24 @@ def tap_walk(ck, name, cfg, steps, coq_exprs, expect):
     def instrument(taps):
         for aname, ag in taps:
             cls = type(ag)
-            for meth, tag in (("_progress_kill_chain", "KProgress"), ("_tap_start", "KStart"), ("_tap_outcome_handler", "KOutcome")):
+            for meth, tag in (("_progress_kill_chain", "KProgress"), ("_tap_start", "KStart"), ("_tap_outcome_handler", "KOutcome"), ("_tap_return_handler", "KReturn")):
                 orig = getattr(cls, meth)
                 if getattr(orig, "_pv", False):
                     continue
 
                 def w(self, *a, _o=orig, _tag=tag, **k):
                     before = (int(self.current_kill_chain_stage), int(self.next_kill_chain_stage))
+                    status = None
+                    if _tag == "KReturn":
+                        # what the simulation answered to the agent's previous request, read here and not taken from the agent
+                        ts = k.get("timestep", a[0] if a else None)
+                        status = self.history[ts].response.status
                     r = _o(self, *a, **k)
                     after = (int(self.current_kill_chain_stage), int(self.next_kill_chain_stage))
                     lg = getattr(self, "_pv_log", None)
                     if lg is not None:
-                        lg.append((_tag, before, after, bool(self.config.agent_settings.repeat_kill_chain), bool(self.actions_concluded)))
+                        lg.append((_tag, before, after, bool(self.config.agent_settings.repeat_kill_chain), bool(self.actions_concluded),
+                                   status, bool(self.config.agent_settings.repeat_kill_chain_stages), r))
                     return r
                 w._pv = True
                 setattr(cls, meth, w)
@@ -149,13 +168,23 @@ def tap_walk(ck, name, cfg, steps, coq_exprs, expect):
     prev = {a: (int(ag.current_kill_chain_stage), int(ag.next_kill_chain_stage)) for a, ag in taps}
     act_times = {a: [] for a, _ in taps}
     for st in range(steps):
-        env.step(rng.randrange(n))
+        env.step(rng.randrange(n) if not hostile or rng.random() < 0.15 else 0)
+        for aname, ag in hook(env):
+            h = ag.history[-1]
+            if hostile and h.action != "do-nothing" and h.response.status == "success" and \
+                    rng.random() < hostile * {"node-application-install": 1.5 if h.parameters.get("application_name") == "c2-beacon" else 0.3,
+                                              "node-file-create": 0.3, "node-folder-create": 0.15}.get(h.action, 0):
+                req = undo_request(h)
+                if req:
+                    env.game.simulation.apply_request(req)
+                    ck.count("defender-removed:%s" % h.action)
         for aname, ag in hook(env):
             last = 6 if type(ag).__name__ == "TAP001" else 5
             cur = (int(ag.current_kill_chain_stage), int(ag.next_kill_chain_stage))
             p = prev[aname][0]
             c = cur[0]
             ok = (c == p) or (p == 100 and c == 1) or (1 <= p < last and c == p + 1) or (p == last and c == 200) or (1 <= p <= last and c == 300) or \
+                 (1 <= p <= last and c == 100 and ag.config.agent_settings.repeat_kill_chain) or \
                  (p in (200, 300) and c == 100 and ag.config.agent_settings.repeat_kill_chain) or (p in (200, 300) and c == 1 and ag.config.agent_settings.repeat_kill_chain)
             ck.evaluations += 1
             if not ok:
@@ -184,7 +213,18 @@ def tap_walk(ck, name, cfg, steps, coq_exprs, expect):
             s = lg[0][1]
             ops, exp = [], []
             cur = s
-            for (tag, before, after, rep, done) in lg:
+            for (tag, before, after, rep, done, status, rep_stages, ret) in lg:
+                if tag == "KReturn":
+                    ck.evaluations += 1
+                    ck.count("tap-response:%s" % status)
+                    if status != "success":
+                        want = before[0] if rep_stages else 300
+                        if after[0] != want or ret is not False:
+                            ck.violation("unsuccessful-response-did-not-stop-the-stage:%s" % type(ag).__name__,
+                                         "%s: its previous request came back %r in stage %d (repeat_kill_chain_stages=%s); the stage afterwards is %d (expected %d) "
+                                         "and the agent %s" % (aname, status, before[0], rep_stages, after[0], want, "carried on" if ret else "held"),
+                                         {"scenario": name, "agent": aname, "status": status, "stage": before[0], "repeat_kill_chain_stages": rep_stages,
+                                          "history": [(x.action, x.parameters, x.response.status) for x in ag.history if x.action != "do-nothing"][-8:]})
                 if before != cur:
                     # a direct assignment between calls: the only one in the sources is "stage := FAILED"
                     if before[0] == 300:
@@ -193,7 +233,8 @@ def tap_walk(ck, name, cfg, steps, coq_exprs, expect):
                         cur = before
                     else:
                         break
-                ops.append("KOutcome %s" % ("true" if rep else "false") if tag == "KOutcome" else tag)
+                ops.append("KOutcome %s" % ("true" if rep else "false") if tag == "KOutcome" else
+                           "KReturn %s %s" % ("true" if status == "success" else "false", "true" if rep_stages else "false") if tag == "KReturn" else tag)
                 exp += [after[0], after[1]]
                 cur = after
             ops, exp = ops[:300], exp[:600]
@@ -255,6 +296,18 @@ def run(ck):
             if a["type"] in ("tap-001", "tap-003"):
                 a["agent_settings"]["repeat_kill_chain"] = rng.random() < 0.5
         tap_walk(ck, "pkg/" + nme, cfg, ck.n(70, 128), exprs, expect)
+        # a defender who removes what the attacker has just put in place (application, file, folder), with stages repeated or not
+        for rs in ((False, True) if "tap003" not in nme else ()):       # TAP003 installs and creates nothing a defender could remove
+            for rep in range(ck.n(2, 5)):
+                cfg2 = copy.deepcopy(cfg)
+                for a in cfg2["agents"]:
+                    if a["type"] in ("tap-001", "tap-003"):
+                        a["agent_settings"]["repeat_kill_chain"] = rng.random() < 0.5
+                        a["agent_settings"]["repeat_kill_chain_stages"] = rs
+                        a["agent_settings"]["frequency"] = rng.choice([2, 3])
+                        a["agent_settings"]["variance"] = rng.choice([0, 1])
+                        a["agent_settings"]["start_step"] = rng.choice([1, 2, 4])
+                tap_walk(ck, "pkg/%s + hostile defender, repeat_kill_chain_stages=%s" % (nme, rs), cfg2, ck.n(70, 128), exprs, expect, hostile=0.6)
     try:
         got = coq_compute(ck, "From Coq Require Import QArith.\nFrom PV Require Import Model.Scripted.", exprs, name="c19b")
         bad = [i for i, (g, e) in enumerate(zip(got, expect)) if g != e]
